@@ -8,14 +8,17 @@ REF-7     native deduction reply parsing (shared with C03's SGR-2/3/4 for deduct
 from __future__ import annotations
 
 import ast
+import itertools
 from typing import Any, Dict, List, Optional, Set, Tuple
 
 from ..core import fde, guards as G
 from ..core.classworld import ClassWorld
-from ..core.fde import Obj, Raised, Tag, Undecided
+from ..core.fde import IndexOutOfRange, Obj, Raised, Tag, Undecided
 from ..core.findings import Report
 from ..core.loader import AnalysisError, Repo, dotted, norm, short, strip_docstring
 from . import c03
+from . import exprmodel as EM
+from .solverworld import solver_self, solver_world
 
 SOLVER = "cspuz/solver.py"
 
@@ -293,6 +296,254 @@ def check_loop(repo: Repo, rep: Report) -> None:
                             "a pass of the refinement loop does not range over all variables", n.lineno)
 
 
+# ------------------------------------------------------------------------------------------
+# REF-E : Solver.solve interpreted against a scripted, model-enumerating backend
+# ------------------------------------------------------------------------------------------
+
+VAR_KINDS = (("b", (False, True)), ("i", (0, 1, 300)), ("b", (False, True)))
+
+
+def _fresh(x: Any) -> Any:
+    """Backends hand back newly built numbers: equal values are not the same object."""
+    return int(str(x)) if isinstance(x, int) and not isinstance(x, bool) else x
+
+
+class _Diverges(Exception):
+    pass
+
+
+def _show(c: Any) -> str:
+    if isinstance(c, Obj):
+        if "leaf" in c.attrs:
+            return str(c.attrs["leaf"])
+        op = c.attrs.get("op")
+        return f"{getattr(op, 'name', op)}({', '.join(_show(x) for x in c.attrs.get('operands', []))})"
+    return repr(c)
+
+
+class _ModelBackend:
+    """A backend whose solve() returns the first assignment of `order` that satisfies every constraint it was
+    given (constraints are the DSL's own trees, denoted with the reference semantics of C01)."""
+
+    def __init__(self, ew: EM.ExprWorld, order: List[Tuple[Any, ...]], native: Optional[Tuple[Any, List[Any]]] = None):
+        self.ew, self.order, self.native = ew, order, native
+        self.vars: List[Any] = []
+        self.cons: List[Any] = []
+        self.solves = 0
+        self.news = 0
+        self.native_args: List[Any] = []
+        self.pending: List[str] = []
+        self.history: List[Any] = []
+        self.obj = Obj(["Backend"], add_constraint=self.add, solve=self.solve, solve_irrefutably=self.irr, name="backend")
+
+    def ctor(self, variables: Any) -> Obj:
+        self.news += 1
+        self.vars = list(variables)
+        return self.obj
+
+    def add(self, c: Any) -> None:
+        cs = c if isinstance(c, list) else [c]
+        self.cons.extend(cs)
+        self.pending.extend(_show(x) for x in cs)
+
+    def holds(self, m: Tuple[Any, ...]) -> bool:
+        val = {v.attrs["leaf"]: x for v, x in zip(self.vars, m)}
+        for c in self.cons:
+            r = self.ew.denote(c, val)
+            if not isinstance(r, bool):
+                raise Undecided(f"constraint denotes non-boolean {r!r}")
+            if not r:
+                return False
+        return True
+
+    def solve(self) -> bool:
+        self.solves += 1
+        found = next((m for m in self.order if self.holds(m)), None)
+        self.history.append((found, tuple(self.pending)))
+        self.pending = []
+        if self.solves > 4 * len(self.order) + 8:
+            if len(set(self.history[-4:])) == 1:
+                # the deterministic backend was handed the same clause and returned the same model four times running
+                raise _Diverges(f"after {self.solves} backend calls every round adds the clause {self.history[-1][1]} and gets the model "
+                                f"{self.history[-1][0]} again")
+            raise Undecided("refinement not finished within the round budget")
+        if found is None:
+            return False
+        for v, x in zip(self.vars, found):
+            v.attrs["sol"] = _fresh(x)
+        return True
+
+    def irr(self, keys: Any) -> Any:
+        if self.native is None:
+            raise Raised("NotImplementedError()")
+        self.native_args.append(list(keys))
+        verdict, sols = self.native
+        for v, x in zip(self.vars, sols):
+            v.attrs["sol"] = x
+        return verdict
+
+
+def _ref_world(repo: Repo) -> Tuple[EM.ExprWorld, ClassWorld]:
+    ew = EM.ExprWorld(repo)
+    pre = {k: v for k, v in ew.genv.items() if k in ("BoolExpr", "IntExpr", "Op", "flatten_iterator", "BoolVar", "IntVar")}
+    cw = solver_world(repo, pre_env=pre)
+    cw.ev.max_steps = 400000
+    ew.ev.max_steps = 400000
+    return ew, cw
+
+
+def _run_solve(ew: EM.ExprWorld, cw: ClassWorld, kinds: List[str], keys: List[bool], models: List[Tuple[Any, ...]],
+               order: List[Tuple[Any, ...]], native: Optional[Tuple[Any, List[Any]]] = None):
+    vs = []
+    for i, k in enumerate(kinds):
+        v = ew.leaf(k, f"v{i}")
+        v.classes |= {"BoolVar"} if k == "b" else {"IntVar"}
+        v.attrs.update(id=i, sol=None, lo=0, hi=300)
+        vs.append(v)
+    # the program: exactly the assignments in `models` (a DNF over the variables, as DSL trees)
+    def lit(v: Obj, x: Any) -> Obj:
+        return ew.term("BoolExpr", Tag("Op.IFF" if isinstance(x, bool) else "Op.EQ"), [v, x])
+    prog = ew.term("BoolExpr", Tag("Op.OR"), [ew.term("BoolExpr", Tag("Op.AND"), [lit(v, x) for v, x in zip(vs, m)]) for m in models])
+    be = _ModelBackend(ew, order, native)
+    selfo = solver_self(cw, variables=vs, is_answer_key=list(keys), constraints=[prog], name="self")
+    cw.ev.steps = 0
+    ew.ev.steps = 0
+    r = cw.method(selfo, "solve")(be.ctor)
+    return r, vs, be, selfo
+
+
+def _typed_eq(a: Any, b: Any) -> bool:
+    return type(a) is type(b) and a == b
+
+
+def semantic_scenarios(tier: str):
+    """(kinds, key mask, model list in enumeration order).  Solver.solve touches values only through
+    candidate != fresh value and `is None` tests, so the behaviour depends on the equality pattern among the
+    models per variable and on the order in which the backend enumerates them; falsy values (False, 0) are present
+    in every domain."""
+    import itertools
+    nv = 2 if tier == "quick" else 3
+    kinds = [k for k, _ in VAR_KINDS[:nv]]
+    universe = list(itertools.product(*[d for _, d in VAR_KINDS[:nv]]))
+    masks = list(itertools.product([False, True], repeat=nv))
+    if tier != "quick":
+        universe = [u for u in universe if u[1] != 300 or u[2] is False]  # 8 of 12: keeps every per-variable pattern over <= 3 models
+    for size in range(0, 4):
+        for ms in itertools.permutations(universe, size):
+            for mask in masks:
+                yield kinds, list(mask), list(ms)
+
+
+def check_semantics(repo: Repo, rep: Report, tier: str = "quick") -> bool:
+    rep.rule("REF-E", "Solver.solve, interpreted against a backend that enumerates a given finite model set in a given order, "
+                      "returns True iff the set is non-empty and leaves on every key the common value or None; "
+                      "native deduction verdicts and values pass through untouched")
+    ew, cw = _ref_world(repo)
+    fn = repo.mod(SOLVER).func("Solver.solve")
+    n = 0
+    try:
+        for kinds, keys, models in semantic_scenarios(tier):
+            doms = [next(d for kk, d in VAR_KINDS if kk == k) for k in kinds]
+            rest = [u for u in itertools.product(*doms) if u not in models]
+            # non-models come first in the backend's enumeration: a dropped constraint shows as a wrong model
+            r, vs, be, selfo = _run_solve(ew, cw, kinds, keys, models, rest[:2] + list(models) + rest[2:])
+            n += 1
+            want_sat = bool(models)
+            bad = None
+            if r is not want_sat:
+                bad = f"returns {r!r}"
+            elif want_sat:
+                for i, (v, k) in enumerate(zip(vs, keys)):
+                    if not k:
+                        continue
+                    vals = {m[i] for m in models}
+                    want = next(iter(vals)) if len(vals) == 1 else None
+                    got = v.attrs.get("sol")
+                    if not ((want is None and got is None) or (want is not None and _typed_eq(got, want))):
+                        bad = f"key variable #{i} gets sol={got!r}, expected {want!r}"
+                        break
+            if be.news != 1:
+                bad = bad or f"{be.news} backend objects were created for one solve()"
+            if len(be.vars) != len(vs) or any(a is not b for a, b in zip(be.vars, vs)):
+                bad = bad or "the backend is not built over exactly self.variables"
+            if bad:
+                rep.finding("REF-E", SOLVER, "Solver.solve", "fallback route result",
+                            f"with variables {kinds}, answer keys {keys} and the satisfying assignments {models} "
+                            f"(enumerated in that order by a backend without native deduction) solve() {bad}", fn.lineno)
+                return False
+        # refinement length: a chain of n keys needs n demotion rounds; n is taken from the integer constants of
+        # the code reachable from solve() so that a literal iteration cap is witnessed
+        consts = sorted({c for c in _int_constants(repo) if 2 <= c <= 400})
+        for nkeys in sorted({5} | {c + 1 for c in consts}):
+            kinds = ["b"] * nkeys
+            models = [tuple([j < k for j in range(nkeys)]) for k in range(nkeys + 1)]
+            r, vs, be, selfo = _run_solve(ew, cw, kinds, [True] * nkeys, models, models)
+            n += 1
+            got = [v.attrs.get("sol") for v in vs]
+            if r is not True or any(g is not None for g in got):
+                rep.finding("REF-E", SOLVER, "Solver.solve", "refinement length",
+                            f"a chain of {nkeys} boolean keys whose models are revealed one demotion at a time ends with "
+                            f"sol={got[:6]}{'...' if nkeys > 6 else ''} (all must be None): the refinement stops before the backend reports UNSAT",
+                            fn.lineno)
+                return False
+        # native route: verdict and values are the backend's
+        for verdict in (True, False):
+            for keys in ([True, False], [False, False], [True, True]):
+                sent = [Tag("native-sol-0"), Tag("native-sol-1")]
+                r, vs, be, selfo = _run_solve(ew, cw, ["b", "i"], keys, [(True, 1)], [(True, 1)], native=(verdict, sent))
+                n += 1
+                got = [v.attrs.get("sol") for v in vs]
+                if r is not verdict or got != sent or be.native_args != [keys] or be.solves:
+                    rep.finding("REF-E", SOLVER, "Solver.solve", "native route result",
+                                f"with a backend that implements solve_irrefutably (verdict {verdict}) solve() returns {r!r}, "
+                                f"hands it {be.native_args!r} for is_answer_key={keys}, calls solve() {be.solves} time(s) and leaves sol={got!r}",
+                                fn.lineno)
+                    return False
+    except _Diverges as ex:
+        rep.finding("REF-E", SOLVER, "Solver.solve", "refinement does not terminate",
+                    f"solve() does not terminate on a program with {len(models)} satisfying assignment(s) {models} (keys {keys}): {ex}", fn.lineno)
+        return False
+    except EM.IllFormed as ex:
+        rep.finding("REF-E", SOLVER, "Solver.solve", "ill-formed constraint", f"solve() hands the backend an ill-formed constraint: {ex}", fn.lineno)
+        return False
+    except (Undecided, IndexOutOfRange) as ex:
+        rep.undecide("REF-E", f"Solver.solve: {ex}")
+        return False
+    except Raised as ex:
+        rep.finding("REF-E", SOLVER, "Solver.solve", "exception", f"solve() raises {ex.what} on a well-formed program", fn.lineno)
+        return False
+    rep.ok("REF-E", f"{n} scenarios (model sets of size 0..3 in every enumeration order x every key mask; demotion chains; native verdicts)", points=n)
+    return True
+
+
+def _reachable(repo: Repo) -> List[ast.AST]:
+    mod = repo.mod(SOLVER)
+    seen: Dict[str, ast.AST] = {}
+    todo = ["Solver.solve"]
+    while todo:
+        q = todo.pop()
+        if q in seen or q not in mod.funcs:
+            continue
+        seen[q] = mod.funcs[q]
+        for n in ast.walk(mod.funcs[q]):
+            if isinstance(n, ast.Call):
+                d = dotted(n.func)
+                if d and d.startswith("self."):
+                    todo.append("Solver." + d[5:])
+                elif d and d in mod.funcs:
+                    todo.append(d)
+    return list(seen.values())
+
+
+def _int_constants(repo: Repo) -> Set[int]:
+    out: Set[int] = set()
+    for f in _reachable(repo):
+        for n in ast.walk(f):
+            if isinstance(n, ast.Constant) and isinstance(n.value, int) and not isinstance(n.value, bool):
+                out.add(n.value)
+    return out
+
+
 def check_partition(repo: Repo, rep: Report) -> None:
     rep.rule("REF-6", "backends without native deduction (z3, sugar) raise NotImplementedError from solve_irrefutably; the others implement it; Solver.solve selects by try/except only")
     cw = ClassWorld([repo.mod("cspuz/backend/backend.py"), repo.mod("cspuz/backend/sugar_like.py"), repo.mod("cspuz/backend/z3.py")])
@@ -309,6 +560,9 @@ def check_partition(repo: Repo, rep: Report) -> None:
             rep.finding("REF-6", "cspuz/backend/sugar_like.py" if cls != "Z3Backend" else "cspuz/backend/z3.py", f"{cls}.solve_irrefutably",
                         f"route of backend {name}",
                         f"backend {name!r} takes the {'native' if native else 'fallback'} route; the property assigns it the other one")
+
+
+def check_selector(repo: Repo, rep: Report) -> None:
     # selector in Solver.solve
     fn = repo.mod(SOLVER).func("Solver.solve")
     tries = [n for n in ast.walk(fn) if isinstance(n, ast.Try)]
@@ -334,13 +588,130 @@ def check_partition(repo: Repo, rep: Report) -> None:
         rep.finding("REF-6", SOLVER, "Solver.solve", "backend construction", "the backend is not built from self.variables and all of self.constraints", fn.lineno)
 
 
+class _Capture:
+    """Collects what the shape rules would report, so that the verdict can be combined with REF-E."""
+
+    def __init__(self, rep: Report):
+        self.rep = rep
+        self.oks: List[Tuple[Any, ...]] = []
+        self.finds: List[Tuple[Any, ...]] = []
+        self.rules: List[Tuple[str, str]] = []
+
+    def rule(self, r: str, d: str) -> None:
+        self.rules.append((r, d))
+
+    def ok(self, *a: Any, **k: Any) -> None:
+        self.oks.append((a, k))
+
+    def finding(self, *a: Any, **k: Any) -> None:
+        self.finds.append((a, k))
+
+    def saw(self, *a: Any) -> None:
+        self.rep.saw(*a)
+
+
+ALLOWED_CALLS = {"any", "all", "range", "len", "enumerate", "zip", "list", "tuple", "isinstance", "BoolExpr", "fold_or", "cast",
+                 "warnings.warn", "ValueError", "TypeError", "map", "filter", "reversed"}
+ALLOWED_METHODS = {"add_constraint", "solve", "solve_irrefutably", "append", "extend", "format"}
+
+
+def check_vocabulary(repo: Repo, rep: Report) -> List[str]:
+    """REF-V: the code reachable from Solver.solve treats all variables and all refinement rounds alike.
+    Returns the list of constructs outside the vocabulary (empty = uniform)."""
+    bad: List[str] = []
+    mod = repo.mod(SOLVER)
+    funcs = _reachable(repo)
+    local_funcs = {q.split(".")[-1] for q in mod.funcs}
+    for f in funcs:
+        tests: List[ast.AST] = []
+        for n in ast.walk(f):
+            if isinstance(n, ast.While):
+                if not G.is_true_const(n.test):
+                    tests.append(n.test)
+            elif isinstance(n, (ast.If, ast.IfExp, ast.Assert)):
+                tests.append(n.test)
+            elif isinstance(n, ast.comprehension):
+                tests.extend(n.ifs)
+            elif isinstance(n, ast.Subscript):
+                sl = n.slice
+                if isinstance(sl, ast.Slice) or (isinstance(sl, ast.Constant) and isinstance(sl.value, int)) or isinstance(sl, (ast.BinOp, ast.UnaryOp)):
+                    bad.append(f"{f.name}: `{short(n)}` addresses a fixed or computed position")
+            elif isinstance(n, ast.Call):
+                d = dotted(n.func)
+                if d is None and isinstance(n.func, ast.Attribute) and isinstance(n.func.value, ast.Constant) and isinstance(n.func.value.value, str):
+                    pass
+                elif d is None:
+                    bad.append(f"{f.name}: call `{short(n)}`")
+                elif d in ALLOWED_CALLS or d.split(".")[-1] in ALLOWED_METHODS:
+                    pass
+                elif d.startswith("self.") and d[5:] in local_funcs or d in mod.funcs:
+                    pass
+                elif isinstance(n.func, ast.Name) and any(isinstance(a, ast.Name) and a.id == d and isinstance(a.ctx, ast.Store)
+                                                           for a in ast.walk(f)):
+                    pass  # a local (the backend class picked by _get_backend)
+                elif d.startswith("backend."):
+                    pass
+                else:
+                    bad.append(f"{f.name}: call of `{d}` is outside the vocabulary")
+            elif isinstance(n, (ast.For,)):
+                it = n.iter
+                if isinstance(it, ast.Call) and dotted(it.func) == "range":
+                    if len(it.args) != 1 or any(isinstance(x, (ast.Constant, ast.BinOp)) for x in ast.walk(it.args[0])):
+                        bad.append(f"{f.name}: `for ... in {short(it)}` does not range over a whole list")
+        for t in tests:
+            for x in ast.walk(t):
+                if isinstance(x, ast.Constant) and isinstance(x.value, (int, float)) and not isinstance(x.value, bool):
+                    bad.append(f"{f.name}: test `{short(t)}` mentions the number {x.value}")
+                elif isinstance(x, ast.Compare) and any(isinstance(o, (ast.Lt, ast.LtE, ast.Gt, ast.GtE)) for o in x.ops):
+                    bad.append(f"{f.name}: test `{short(t)}` orders values")
+                elif isinstance(x, ast.BinOp):
+                    bad.append(f"{f.name}: test `{short(t)}` computes")
+                elif isinstance(x, ast.Compare) and any(isinstance(o, (ast.Is, ast.IsNot)) for o in x.ops) and not any(
+                        isinstance(c, ast.Constant) and c.value in (None, True, False) for c in [x.left] + x.comparators):
+                    bad.append(f"{f.name}: test `{short(t)}` compares values by identity")
+                elif isinstance(x, ast.Call) and dotted(x.func) == "len":
+                    bad.append(f"{f.name}: test `{short(t)}` depends on a length")
+    return bad
+
+
 def run(repo: Repo, rep: Report) -> None:
-    check_loop(repo, rep)
+    sem_ok = check_semantics(repo, rep, rep.tier)
+    sem_found = any(f.rule == "REF-E" for f in rep.findings)
+    cap = _Capture(rep)
+    shape_err: Optional[str] = None
+    try:
+        check_loop(repo, cap)  # type: ignore[arg-type]
+        check_selector(repo, cap)  # type: ignore[arg-type]
+    except AnalysisError as ex:
+        shape_err = str(ex)
+    for r, d in cap.rules:
+        rep.rule(r, d)
+    rep.rule("REF-V", "when the loop is not in the catalogued shape: the code reachable from Solver.solve is uniform in the variable index "
+                      "and in the round number (no numeric tests, no positional access, closed call vocabulary), so REF-E's finite scenarios generalise")
+    if shape_err is None and not cap.finds:
+        for a, k in cap.oks:
+            rep.ok(*a, **k)
+        rep.floor("REF-1", 1)
+        rep.floor("REF-3", 1)
+    elif sem_found:
+        # a witnessed violation: the shape deviations localise it
+        for a, k in cap.finds:
+            rep.finding(*a, **k)
+    elif sem_ok:
+        devs = [f"{a[0]}: {a[4]}" for a, _k in cap.finds] + ([shape_err] if shape_err else [])
+        rep.info("Solver.solve is not in the catalogued refute-and-resolve shape (" + "; ".join(devs)[:600] + "); deciding by REF-E + REF-V")
+        bad = check_vocabulary(repo, rep)
+        if bad:
+            rep.undecide("REF-V", "uncatalogued loop shape and non-uniform constructs: " + "; ".join(bad)[:600])
+        else:
+            rep.ok("REF-V", "uncatalogued loop shape; reachable code is index- and round-uniform, REF-E scenarios generalise")
+    else:
+        rep.undecide("REF-1", "loop shape not recognised and REF-E undecided: " + (shape_err or "; ".join(a[4] for a, _k in cap.finds))[:400])
     check_partition(repo, rep)
     h = c03.Harness(repo)
     jp = c03.JavaProtocol(repo)
     c03.check_protocol(repo, rep, h, jp)
-    rep.floor("REF-1", 1)
-    rep.floor("REF-3", 1)
     rep.assume("the idea of refute-and-resolve itself (intersection of all models is reached when the refuting clause becomes UNSAT) "
-               "is taken as correct; the rules decide that Solver.solve has that shape")
+               "is taken as correct; REF-1..5 decide that Solver.solve has that shape, REF-E that it behaves so on every small model set")
+    rep.assume("REF-E generalises from model sets of size <= 3 over 2-3 variables because Solver.solve inspects values only through "
+               "equality with the previous candidate and `is None`, one variable at a time (checked by REF-1..5 or REF-V)")
